@@ -24,7 +24,7 @@ META = dict(
     technique='runtime monitoring: transport-boundary monitor with independent '
               'XML oracle (lxml well-formedness + DSP0203 DTD validation, XML 1.0 '
               'Char check, recursive embedded-object validation) and '
-              'header/body consistency oracle; thorough tier also applies the same oracle to the CIM objects that the repository\'s own unit tests construct (harvested by a sys.monitoring PY_RETURN hook on the constructors)',
+              'header/body consistency oracle; thorough tier also applies the same oracle to the CIM objects that the repository\'s own unit tests construct (harvested by a sys.monitoring PY_RETURN hook on the constructors) and the request oracle to every request that those tests make pywbem send (captured by a PY_START hook on requests.Session.send)',
     level_text='Every one of the 41 public operation methods is called with '
                'seeded arguments of every accepted shape (str / CIMClassName / '
                'CIMInstanceName names, generated instances, classes, qualifier '
@@ -666,8 +666,76 @@ def post_run(tier, seed, workdir):
     if tier != 'thorough':
         return {}
     from vf.harvest import judge_harvest
-    return judge_harvest('C03', tier, seed, workdir, _judge_harvested,
-                         HARVEST_CLASSES, setup=_harvest_setup)
+    out = judge_harvest('C03', tier, seed, workdir, _judge_harvested,
+                        HARVEST_CLASSES, setup=_harvest_setup)
+    # second stage: the requests that the repository's own tests make pywbem
+    # send (captured at requests.Session.send), under the request oracle
+    cap = judge_captured_requests(tier, seed, workdir)
+    for k in ('events', 'extra'):
+        out.setdefault(k, {}).update(cap.get(k, {}))
+    out.setdefault('violations', []).extend(cap.get('violations', []))
+    counts = dict(out.get('viol_counts') or {})
+    for k, n in (cap.get('viol_counts') or {}).items():
+        counts[k] = counts.get(k, 0) + n
+    out['viol_counts'] = counts
+    if cap.get('inconclusive'):
+        out.setdefault('inconclusive', []).extend(cap['inconclusive'])
+    return out
+
+
+class _CapturedRequest:
+    def __init__(self, body, headers):
+        import requests
+        self.body = body
+        self.headers = requests.structures.CaseInsensitiveDict(headers)
+
+
+def judge_captured_requests(tier, seed, workdir):
+    from vf.contracts import captured_requests
+    from vf.runner import Ctx
+    reqs, rep = captured_requests(workdir)
+    if 'error' in rep:
+        return {'inconclusive': [rep['error']]}
+    ctx = Ctx('C03', tier, seed)
+    warnings.simplefilter('ignore')
+    for body, headers in reqs:
+        ctx.evaluated()
+        d = {'origin': 'request sent by the repository tests',
+             'headers': {k: v for k, v in headers.items()
+                         if k.startswith('CIM')},
+             'body': short(body.decode('utf-8', 'replace'), 1200)}
+        try:
+            if not body.startswith(b'<?xml version="1.0"'):
+                ctx.violation('request.no-xml-declaration',
+                              'body does not start with the XML declaration',
+                              d)
+            if judge_document(ctx, body, 'request', d):
+                judge_headers(ctx, _CapturedRequest(body, headers), body, d)
+        except CaseTimeout:
+            raise
+        except Exception as exc:  # pylint: disable=broad-except
+            import traceback
+            ctx.harness_errors.append(
+                {'case': None, 'traceback': traceback.format_exc()[-2000:]})
+    for v in ctx.violations:
+        v['case'] = None
+    out = {'events': {'captured:requests-judged': len(reqs),
+                      'captured:requests-sent-by-repo-tests':
+                      rep['wirecap']['sent']},
+           'extra': {'requests_captured_from_repo_tests': {
+               'files': rep.get('files'), 'pytest': rep.get('pytest_tail'),
+               'distinct': len(reqs)}},
+           'violations': ctx.violations,
+           'viol_counts': dict(ctx.viol_counts)}
+    inc = []
+    if ctx.harness_errors:
+        inc.append('harness errors while judging captured requests: ' +
+                   ctx.harness_errors[0]['traceback'][-600:])
+    if not reqs:
+        inc.append('no request of the repository tests was captured')
+    if inc:
+        out['inconclusive'] = inc
+    return out
 
 
 def replay_harvested(ctx, rec):
